@@ -1003,6 +1003,74 @@ def gen_texttable(rng, ity=None, n=None):
     return d
 
 
+SIGNED_ITYPES = ("A_INT32", "A_FLOAT64", "A_FLOAT32")
+
+
+def _tt_scale(lo, hi, inv, text):
+    return {"lo": lo, "hi": hi, "inv": inv, "const": None if text is None else vs(text), "num": None, "den": []}
+
+
+def texttable_small_scope(ity, lo_min=-3, hi_max=3):
+    """exhaustive small scope of range scales around zero: every range [lo, hi] with lo_min <= lo < hi <= hi_max
+    x every COMPU-INVERSE-VALUE inside the range (and none), next to a point scale at hi+1.
+    Values that Python treats as false (0, 0.0) occur in every role: lower limit, upper limit, interior
+    point, inverse value — with the other roles different from them."""
+    mk = lambda q: vnum(q, ity)   # noqa: E731
+    for lo in range(lo_min, hi_max):
+        for hi in range(lo + 1, hi_max + 1):
+            for inv in [None] + list(range(lo, hi + 1)):
+                s0 = _tt_scale({"v": mk(lo), "t": "CLOSED"}, {"v": mk(hi), "t": "CLOSED"}, None if inv is None else mk(inv), "mid")
+                s1 = _tt_scale({"v": mk(hi + 1), "t": "CLOSED"}, {"v": mk(hi + 1), "t": "CLOSED"}, None, "high")
+                yield {"cat": "TEXTTABLE", "ity": ity, "pty": "A_UNICODE2STRING", "i2p": {"scales": [s0, s1], "default": None},
+                       "p2i": None, "family": "texttable-small-scope"}
+
+
+def gen_texttable_zero(rng, ity=None, n=None):
+    """TEXTTABLE over a narrow window centred at zero (signed and float internal types mostly): ranges that
+    start below zero, end at zero or straddle it; single-limit scales at zero; inverse values anywhere inside the range
+    (biased to the falsy ones 0 / 0.0), also on point and single-limit scales; default text "" and default
+    internal value 0.  Distinct texts, disjoint scales: everything is inside the envelope of the direct oracle."""
+    ity = ity or rng.choice(SIGNED_ITYPES + ("A_INT32", "A_UINT32"))
+    pty = rng.choice(STR_TYPES)
+    n = n or rng.randint(1, 4)
+    texts = rng.sample(TEXTS, n)
+    lo_w = 0 if ity == "A_UINT32" else -rng.choice([2, 4, 6, 9])
+    hi_w = lo_w + 3 * n + rng.choice([1, 3, 6])
+    keys = sorted(rng.sample(range(lo_w, hi_w + 1), 2 * n))
+    mk = lambda q: vnum(q, ity)   # noqa: E731
+    scales = []
+    for k in range(n):
+        a, b = keys[2 * k], keys[2 * k + 1]
+        form = rng.choice(["range", "range", "range", "point", "lo-only", "hi-only"])
+        if form == "range":
+            lo = {"v": mk(a), "t": rng.choice(["CLOSED", None, "CLOSED", "OPEN"])}
+            hi = {"v": mk(b), "t": rng.choice(["CLOSED", None, "CLOSED", "OPEN"])}
+            inv = None
+            r = rng.random()
+            if r < 0.45 and a <= 0 <= b:
+                inv = mk(0)
+            elif r < 0.85:
+                inv = mk(rng.randint(a, b))
+            s = _tt_scale(lo, hi, inv, texts[k])
+        elif form == "point":
+            v = 0 if a < 0 < b else rng.choice([a, b])         # still disjoint from the other scales
+            s = _tt_scale({"v": mk(v), "t": rng.choice(["CLOSED", None])}, {"v": mk(v), "t": rng.choice(["CLOSED", None])},
+                          mk(v) if rng.random() < 0.3 else None, texts[k])
+        elif form == "lo-only":
+            s = _tt_scale({"v": mk(a), "t": rng.choice(["CLOSED", None])}, None, mk(a) if rng.random() < 0.3 else None, texts[k])
+        else:
+            s = _tt_scale(None, {"v": mk(b), "t": rng.choice(["CLOSED", None])}, mk(b) if rng.random() < 0.3 else None, texts[k])
+        scales.append(s)
+    d = {"cat": "TEXTTABLE", "ity": ity, "pty": pty, "i2p": {"scales": scales, "default": None}, "p2i": None,
+         "family": "texttable-zero"}
+    r = rng.random()
+    if r < 0.15:
+        d["i2p"]["default"] = vs(rng.choice(["", "undefined"]))
+    elif r < 0.3:
+        d["p2i"] = {"scales": [], "default": mk(rng.choice([0, 0, lo_w, 99]))}
+    return d
+
+
 def gen_identical(rng):
     ity = rng.choice(NUM_TYPES + STR_TYPES)
     pty = ity if ity in NUM_TYPES else rng.choice(STR_TYPES)      # IDENTICAL requires equal types (any two string types)
